@@ -134,7 +134,7 @@ def gen_case(draw):
                                                      st.integers(0, 999999), st.integers(0, 14), st.sampled_from(['4999996', '5000004', '4999994']))))}
     return {'k': 'gen', 'blocks': blocks, 'nv': nv, 'pass_nv': (nv > 4) or draw(st.booleans()),
             'check': check, 'toughreact': toughreact, 'timing': timing, 'reset': draw(st.booleans()), 'prewrite': draw(st.sampled_from([None, None, 'reset', 'keep'])), 'refused_first': draw(st.integers(0, 4)) == 0,
-            'built_by': draw(st.sampled_from(['add', 'add', 'insert-front', 'delete-readd'])),
+            'built_by': draw(st.sampled_from(['add', 'add', 'insert-front', 'delete-readd', 'edit'])),
             'style': draw(st.sampled_from(['E', 'D', 'e'])),
             'reuse': draw(st.sampled_from([None, None, 'TOUGH2', 'TOUGHREACT']))}
 
@@ -203,14 +203,27 @@ def build(case):
     import t2incons, numpy as np
     inc = t2incons.t2incon()
     how = case.get('built_by', 'add')
-    blocks = case['blocks'] if how == 'add' else case['blocks'][::-1]
+    blocks = case['blocks'] if how in ('add', 'edit') else case['blocks'][::-1]
     for k, b in enumerate(blocks):
         perm = None if b['perm'] is None else np.array(b['perm'])
         bi = t2incons.t2blockincon(list(b['vars']), b['name'], b['por'], perm, b['nseq'], b['nadd'])
-        if how == 'add': inc.add_incon(bi)
+        if how in ('add', 'edit'): inc.add_incon(bi)
         elif how == 'insert-front': inc.insert_incon(0, bi)          # same set, same final order, reached by insertion at the front
         else:                                                       # 'delete-readd': appended in reverse, then each moved to its place
             inc.add_incon(bi)
+    if how == 'edit':
+        # the set reached through deletions and replacements: two stand-ins inserted next to each other in the middle and
+        # deleted again (neighbours, one after the other), a stand-in at the front deleted, and the block that followed each
+        # deleted one replaced by itself (assignment under a name already present keeps the block's place)
+        names = [b['name'] for b in case['blocks']]
+        mid = len(names) // 2
+        for k, nm in enumerate(('~~~~1', '~~~~2', '~~~~3')):
+            inc.insert_incon(0 if k == 2 else mid + k, t2incons.t2blockincon([1.0] * len(case['blocks'][0]['vars']) if case['blocks'] else [1.0], nm))
+        inc.delete_incon('~~~~3')
+        if names: inc[names[0]] = inc[names[0]]
+        inc.delete_incon('~~~~1'); inc.delete_incon('~~~~2')
+        if mid < len(names): inc[names[mid]] = inc[names[mid]]
+        if names: inc[names[-1]] = inc[names[-1]]
     if how == 'delete-readd':
         for b in case['blocks']:
             bi = inc[b['name']]; inc.delete_incon(b['name']); inc.add_incon(bi)
